@@ -309,6 +309,7 @@ def zeros(
         Whether or not to sample with replacement.
     """
     # Python integers: neither the number of entries nor samples * data_size may wrap
+    samples = int(samples)
     data_size = prod(int(n) for n in data.shape)
     nnz = len(nz_idx)
     num_zeros = data_size - nnz
